@@ -300,6 +300,16 @@ def fam_checksum(tier):
                      "0000001%02X", "%02XA", "%02X0", "%02Xg", "%02X*", "%02X,"):
             for c in (true, true ^ 1, true ^ 0x10, true ^ 0x80, (true + 1) & 255):
                 sc.line(nmea.line(ck=(form % c).encode(), **kw), 0, 0)
+        # sentences whose XOR is a small value, with sign / blank / prefix characters in the checksum field
+        for target in (0x01, 0x0A, 0x0F, 0x00, 0x10, 0x7F):
+            kw2 = dict(kw)
+            pay = bytearray(kw2["payload"])
+            pay[-1] ^= true ^ target
+            if pay[-1] in (44, 42, 10, 13):
+                continue
+            kw2["payload"] = bytes(pay)
+            for form in ("+%X", "-%X", " %X", "+%02X", "-%02X", " %02X", "0x%02X", "0X%X", "%Xh", "%X ", "%X+", "#%02X", "$%02X", "%02X."):
+                sc.line(nmea.line(ck=(form % target).encode(), **kw2), 0, 0)
         # single-byte corruptions
         positions = range(len(good)) if (thorough or bi < 4) else sorted(rnd.sample(range(len(good)), min(25, len(good))))
         for pos in positions:
@@ -431,7 +441,7 @@ def fam_fields(tier):
     def both(b):
         cnt[0] += 1
         sc.line(b, 0, 0, tag="A:f%d" % cnt[0])
-        sc.line(b, 1, 1)
+        sc.line(b, 1, 1, tag="B:f%d:C07:sent:decode-on-vs-off" % cnt[0])
 
     def valid_payload():
         buf = rand_message(tb, rnd)
@@ -455,6 +465,39 @@ def fam_fields(tier):
                   tag=rnd.choice([None, None, b"c:123", b"", b"s:x,c:1*5C"]), lower=rnd.random() < 0.3,
                   tail=rnd.choice([b"", b"", b"\r", b"\r\n", b" trailing"]))
         both(nmea.line(**kw))
+    # every pair of first two address bytes (talker table), and every single-byte variation of the report type
+    sc.unit()
+    sc.new(0)
+    pay0 = b"15M67FC000G?ufbE`FepT@3n00Sa"
+    step = 1 if thorough else 1
+    for a in range(0, 256, step):
+        for b2 in range(256):
+            if a in (42,) or b2 in (42,):
+                continue
+            sc.line(nmea.line(addr=bytes([a, b2]) + b"VDM", payload=pay0), 0, 0)
+    for pos in range(3):
+        for v in range(256):
+            if v == 42:
+                continue
+            for basis in (b"VDM", b"VDO"):
+                r = bytearray(basis)
+                r[pos] = v
+                sc.line(nmea.line(addr=b"AI" + bytes(r), payload=pay0), 0, 0)
+    # decodable messages in fragments whose non-final fragments carry fill bits, decode off / on
+    for gi in range(400 if thorough else 60):
+        sc.unit()
+        sc.new(0)
+        sc.new(1)
+        buf = rand_message(tb, rnd)
+        pay, fill = nmea.armor(buf.bytes(), buf.n)
+        if len(pay) < 4:
+            continue
+        parts = rnd.randrange(2, min(5, len(pay)) + 1)
+        cuts = split_points(rnd, len(pay), parts)
+        sid = rnd.choice([None, 2, 9])
+        for k in range(1, parts + 1):
+            both(nmea.line(n=parts, k=k, sid=sid, payload=pay[cuts[k - 1]:cuts[k]],
+                           fill=fill if k == parts else rnd.choice([0, 1, 2, 3, 4, 5]), chan=rnd.choice([b"A", b"B", b""])))
     # groups after abandoned groups / deliveries / noise, with and without a sequence id
     for gi in range(300 if thorough else 40):
         sc.unit()
@@ -603,6 +646,20 @@ def fam_types(tier):
             if nbytes:
                 d[0] = (t << 2) | (d[0] & 3)
             sc.decode(bytes(d))
+    # the first six bits ALONE decide: the same sentence after payloads that failed to decode, after other
+    # messages, and on a fresh parser
+    for s in S:
+        sc.unit()
+        sc.new(0)
+        t = s[0]
+        for prev in (1, 2, 4, 8, 16, 32, 21, 42, 63, 0):
+            # a sentence whose payload unarmors but does not decode (too short / unsupported type)
+            sc.line(nmea.line(payload=bytes([nmea.ARMOR[prev]]) + rand_armor(rnd, rnd.choice([0, 1, 3])), fill=0), 0, 1)
+            buf = rand_message(tb, rnd, shape=s)
+            emit(sc, buf, "L")
+            other = rand_message(tb, rnd)
+            emit(sc, other, "L")
+            emit(sc, buf, "L")
     return sc
 
 
@@ -1064,7 +1121,7 @@ def random_stream(rnd, length, ids, maxn=9, valid_only=True):
         n = rnd.choice([1, 2, 2, 3, 3, 4, 5, maxn])
         sid = rnd.choice(ids)
         grp = [dict(n=n, k=k, sid=sid, payload=rand_armor(rnd, rnd.randrange(1, 12)),
-                    fill=rnd.randrange(6) if k == n else 0) for k in range(1, n + 1)]
+                    fill=rnd.randrange(6) if (k == n or rnd.random() < 0.3) else 0) for k in range(1, n + 1)]
         mode = rnd.randrange(10)
         if mode == 0 and n > 1:                      # loss
             del grp[rnd.randrange(n)]
